@@ -8,7 +8,7 @@ EXTENDS ProjectRuns, Json
 Core(rs, fl, md, nr) == [runs |-> rs, files |-> fl, made |-> md, nrem |-> nr]
 EmitState == PrintT(<<"STATE", ToJson([core |-> Core(runs, files, made, nrem),
                                         latest |-> [nm \in Names |-> LatestAllowed(runs, nm)],
-                                        folders |-> {[name |-> r.name, n |-> r.n, folder |-> Folder(r.name, r.n)] : r \in runs}])>>)
+                                        folders |-> {[name |-> r.name, n |-> r.n, folder |-> Folder(r.name, r.n), partial |-> r.tok = 0] : r \in runs}])>>)
 EmitEdge == PrintT(<<"EDGE", ToJson([src |-> Core(runs, files, made, nrem), act |-> last', dst |-> Core(runs', files', made', nrem'),
-                                      folder |-> IF last'.op \in {"optimize", "remove"} THEN Folder(last'.ret.name, last'.ret.n) ELSE ""])>>)
+                                      folder |-> IF last'.op \in {"optimize", "optimize_fails", "remove"} THEN Folder(last'.ret.name, last'.ret.n) ELSE ""])>>)
 =============================================================================
